@@ -602,6 +602,11 @@ def solve_projection_onto_manifold_newton_with_line_search(
                 if new_error < error:
                     break
                 step_size *= 0.5
+            else:
+                # Line search exhausted without reducing error: undo last halving so that
+                # step size matches the one used in the last update to the position and
+                # the multipliers (and so momentum update) remain consistent with it
+                step_size *= 2.0
             mu += step_size * delta_mu
         except (ValueError, LinAlgError) as e:
             # Make robust to errors in intermediate linear algebra ops
